@@ -2,7 +2,9 @@
 package checks
 
 import (
+	"encoding/json"
 	"fmt"
+	"io"
 	"strings"
 
 	"github.com/gopatchy/bkl"
@@ -203,4 +205,22 @@ func setAt(root any, p []any, nv any) any {
 
 func newDoc(id string, data any) *bkl.Document {
 	return bkl.NewDocumentWithData(id, core.Clone(data))
+}
+
+// parseJSONStream decodes a stream of JSON documents (independent of bkl).
+func parseJSONStream(s string) ([]any, error) {
+	d := json.NewDecoder(strings.NewReader(s))
+	d.UseNumber()
+	out := []any{}
+	for {
+		var v any
+		err := d.Decode(&v)
+		if err == io.EOF {
+			return out, nil
+		}
+		if err != nil {
+			return nil, err
+		}
+		out = append(out, c14Norm(v))
+	}
 }
